@@ -2,13 +2,13 @@ package transaction
 
 import (
 	"fmt"
-	"reflect"
 	"time"
 
 	"github.com/go-logr/logr"
 	"github.com/google/uuid"
 	"github.com/ovn-org/libovsdb/cache"
 	"github.com/ovn-org/libovsdb/database"
+	"github.com/ovn-org/libovsdb/mapper"
 	"github.com/ovn-org/libovsdb/model"
 	"github.com/ovn-org/libovsdb/ovsdb"
 	"github.com/ovn-org/libovsdb/updates"
@@ -404,72 +404,43 @@ func (t *Transaction) Wait(table string, timeout *int, where []ovsdb.Condition, 
 	if realTable == nil {
 		return ovsdb.ResultFromError(&ovsdb.NotSupported{})
 	}
-	model, err := dbModel.NewModel(table)
-	if err != nil {
-		return ovsdb.ResultFromError(err)
-	}
-
 Loop:
 	for {
-		var filteredRows []ovsdb.Row
 		foundRowModels, err := t.rowsFromTransactionCacheAndDatabase(table, where)
 		if err != nil {
 			return ovsdb.ResultFromError(err)
 		}
 
-		m := dbModel.Mapper
+		// the selected rows and the expected rows are equal (as sets, on the
+		// given columns) if every selected row equals some expected row and
+		// every expected row equals some selected row
+		expectedFound := make([]bool, len(rows))
+		equal := true
 		for _, rowModel := range foundRowModels {
 			info, err := dbModel.NewModelInfo(rowModel)
 			if err != nil {
 				return ovsdb.ResultFromError(err)
 			}
-
-			foundMatch := true
-			for _, column := range columns {
-				columnSchema := info.Metadata.TableSchema.Column(column)
-				for _, r := range rows {
-					i, err := dbModel.NewModelInfo(model)
-					if err != nil {
-						return ovsdb.ResultFromError(err)
-					}
-					err = dbModel.Mapper.GetRowData(&r, i)
-					if err != nil {
-						return ovsdb.ResultFromError(err)
-					}
-					x, err := i.FieldByColumn(column)
-					if err != nil {
-						return ovsdb.ResultFromError(err)
-					}
-
-					// check to see if field value is default for given rows
-					// if it is default (not provided) we shouldn't try to compare
-					// for equality
-					if ovsdb.IsDefaultValue(columnSchema, x) {
-						continue
-					}
-					y, err := info.FieldByColumn(column)
-					if err != nil {
-						return ovsdb.ResultFromError(err)
-					}
-					if !reflect.DeepEqual(x, y) {
-						foundMatch = false
-					}
-				}
-			}
-
-			if foundMatch {
-				resultRow, err := m.NewRow(info)
+			foundMatch := false
+			for i := range rows {
+				matches, err := t.waitRowMatches(table, info, &rows[i], columns)
 				if err != nil {
 					return ovsdb.ResultFromError(err)
 				}
-				filteredRows = append(filteredRows, resultRow)
+				if matches {
+					foundMatch = true
+					expectedFound[i] = true
+				}
 			}
-
+			equal = equal && foundMatch
+		}
+		for _, found := range expectedFound {
+			equal = equal && found
 		}
 
-		if until == "==" && len(filteredRows) == len(rows) {
+		if until == "==" && equal {
 			return ovsdb.OperationResult{}
-		} else if until == "!=" && len(filteredRows) != len(rows) {
+		} else if until == "!=" && !equal {
 			return ovsdb.OperationResult{}
 		}
 
@@ -486,6 +457,50 @@ Loop:
 	}
 
 	return ovsdb.ResultFromError(&ovsdb.TimedOut{})
+}
+
+// waitRowMatches returns whether a row, given as model info, has the values
+// of the expected row in the given columns. Columns the expected row does not
+// provide are not compared.
+func (t *Transaction) waitRowMatches(table string, info *mapper.Info, expected *ovsdb.Row, columns []string) (bool, error) {
+	expectedModel, err := t.Model.NewModel(table)
+	if err != nil {
+		return false, err
+	}
+	expectedInfo, err := t.Model.NewModelInfo(expectedModel)
+	if err != nil {
+		return false, err
+	}
+	if err := t.Model.Mapper.GetRowData(expected, expectedInfo); err != nil {
+		return false, err
+	}
+	if len(columns) == 0 {
+		// no columns given: compare every column the expected row provides
+		for column := range *expected {
+			columns = append(columns, column)
+		}
+	}
+	for _, column := range columns {
+		if _, provided := (*expected)[column]; !provided {
+			continue
+		}
+		x, err := expectedInfo.FieldByColumn(column)
+		if err != nil {
+			return false, err
+		}
+		y, err := info.FieldByColumn(column)
+		if err != nil {
+			return false, err
+		}
+		equal, err := ovsdb.ConditionEqual.Evaluate(x, y)
+		if err != nil {
+			return false, err
+		}
+		if !equal {
+			return false, nil
+		}
+	}
+	return true, nil
 }
 
 func (t *Transaction) Commit(durable bool) ovsdb.OperationResult {
